@@ -71,6 +71,9 @@ def decode_fields(c, cdb):
     return {f: R.get(cdb, *pos) for f, pos in c.fields.items()}
 
 
+FIRST = [0]
+
+
 def check_buffers(ctx, c, setname, path, a, cdb, datain, dataout, by_cdb_only=False):
     wit = {"cmd": c.name, "table": setname, "path": path, "args": a, "cdb": bytes(cdb),
            "datain": "%s len=%s" % (type(datain).__name__, _len(datain)), "dataout": "%s len=%s" % (type(dataout).__name__, _len(dataout))}
@@ -269,6 +272,27 @@ def one(ctx, c, setname, a, transports, do_transports, rng):
 
                     _sys.modules["sgio" if tname == "sgio" else "iscsi"].handler = filler
                     ctx.count("replies_announcing_more_than_fits")
+                FIRST[0] += 1
+                if FIRST[0] % 4 == 1:
+                    # the first reply is not GOOD (BUSY, TASK SET FULL, a UNIT ATTENTION): whatever the library does about it, every
+                    # hand-off of the command carries buffers that match its CDB
+                    import sys as _sys2
+
+                    from vmon.spec import sense as _SN
+
+                    modx = _sys2.modules["sgio" if tname == "sgio" else "iscsi"]
+                    inner = modx.handler
+                    pending = [[(0x08, None)], [(0x28, None)], [(2, _SN.build(0x70, 0, 6, 0x29, 0, 18))], [(2, _SN.build(0x70, 0, 5, 0x24, 0, 18))],
+                               [(0x08, None), (0x08, None)]][(FIRST[0] // 4) % 5]
+                    pending = list(pending)
+
+                    def flaky(ev, inner=inner, pending=pending):
+                        if pending:
+                            return pending.pop(0)
+                        return inner(ev) if inner is not None else (0, None)
+
+                    modx.handler = flaky
+                    ctx.count("first_reply_not_good")
                 try:
                     cmd2 = harness.facade_call(c, s, DO.fresh(a) if c.custom else dict(a))
                 except Exception as e:  # noqa: BLE001
@@ -283,7 +307,7 @@ def one(ctx, c, setname, a, transports, do_transports, rng):
                 for later in log[1:]:
                     # the facade handed the command over more than once: every hand-off must be consistent in itself
                     f2 = dict(full)
-                    check_buffers(ctx, c, setname, tname + ".further_hand_off", f2, later["cdb"], later["in"], later["out"], by_cdb_only=True)
+                    check_buffers(ctx, c, setname, tname + ".further_hand_off", f2, later["cdb"], later["in"], later["out"], by_cdb_only=c.xfer == "allocarg")
                     ctx.count("further_hand_offs_checked")
                 nt = check_buffers(ctx, c, setname, tname, full, ev["cdb"], ev["in"], ev["out"])
                 ctx.case((tname,) + rep, nt)
